@@ -13,6 +13,9 @@
 //!   lim=1              also report the numeric flags of the %grmtools section (LIM section)
 //!   nl=<n|d>           (with w=) also report, per written regex, whether the regex crate ON ITS OWN builds it under f= with
 //!                      nest_limit n (d = the crate's default): NL section — the reference for "the limit in force is the one written"
+//!   lf=<s|->:<d|->     (with w=, own case kind: only the LFI / LFR / LFX sections are printed) the limits on the COMPILED regex: the definition is
+//!                      built from src= (its %grmtools section, or opt= with `size:<n>` / `dfa:<n>`), and every written regex w[k] is, independently,
+//!                      compiled by the regex crate in the wrapper `\A(?:..)` under f= with size_limit(s) if s is given and dfa_size_limit(d) if d is given
 //!   flags = comma list of `<name>:<0|1>` with names dnl ml oct pe awc ci sg iw uni (and `nest:<n>` = nest_limit), or `-`
 //!
 //! result line: sections joined by ` | `
@@ -30,6 +33,11 @@
 //!   RX { <k>:<neq>:<ndiff>[:x<first differing battery string>:<impl>:<written>] | <k>:IMPLERR | <k>:WRITTENERR }*
 //!   LX { x<input>=<tok>:<start>:<len>,… [E<start>] }*      lexemes of the implementation
 //!   RL { x<input>=… }*                                     lexemes of the reference lexer (from w=, wn=, f=)
+//!   LFI built | LFI E { <kind>:<span start>:<n|-> }* | LFI PANIC      (with lf=) the definition: built, or its errors (n = payload of
+//!                                                                     RegexError(CompiledTooBig(n)))
+//!   LFR { <k>:built:<u> | <k>:toobig:<n>:<u> | <k>:err }*             (with lf=) the regex crate alone on the k-th written regex under the limits given;
+//!                                                                     u = 1 / 0: the compiled program is / is not within d bytes (it builds with size_limit(d)), - = no d
+//!   LFX { x<input>=<impl lexemes>/<reference lexemes> }*              (with lf= and in=, when both built) lexemes as in LX / RL
 //!   ANCH ok | ANCH { x<input>:<tok>:<start>:<len> }*       (with in=) emitted lexemes whose text is NOT what a rule of that token id
 //!                                                          matches when its re_str — compiled on its own under f=, not spliced into a
 //!                                                          wrapper — is searched in the remaining input: the match must exist, start
@@ -73,6 +81,14 @@ fn parse_flags(s: &str) -> LexFlags {
         if k == "nest" {
             // the numeric flag nest_limit (the others are booleans)
             f.nest_limit = Some(v.parse().expect("nest:<u32>"));
+            continue;
+        }
+        if k == "size" {
+            f.size_limit = Some(v.parse().expect("size:<usize>"));
+            continue;
+        }
+        if k == "dfa" {
+            f.dfa_size_limit = Some(v.parse().expect("dfa:<usize>"));
             continue;
         }
         let v = Some(v == "1");
@@ -147,6 +163,133 @@ fn build_nl(re: &str, f: &LexFlags, anchored: bool, nl: Option<u32>) -> Result<R
     b.build()
 }
 
+/// `re` in the wrapper of `Rule::new`, compiled under flags `f` with the limits on the compiled program exactly as given:
+/// `size_limit(s)` if s is given, `dfa_size_limit(d)` if d is given (the regex crate's defaults otherwise).
+fn build_limits(re: &str, f: &LexFlags, s: Option<usize>, d: Option<usize>) -> Result<Regex, regex::Error> {
+    let mut b = RegexBuilder::new(&format!("\\A(?:{})", re));
+    b.nest_limit(252)
+        .octal(f.octal.unwrap_or(true))
+        .multi_line(f.multi_line.unwrap_or(true))
+        .dot_matches_new_line(f.dot_matches_new_line.unwrap_or(true));
+    if let Some(x) = f.ignore_whitespace {
+        b.ignore_whitespace(x);
+    }
+    if let Some(x) = f.unicode {
+        b.unicode(x);
+    }
+    if let Some(x) = f.case_insensitive {
+        b.case_insensitive(x);
+    }
+    if let Some(x) = f.swap_greed {
+        b.swap_greed(x);
+    }
+    if let Some(x) = s {
+        b.size_limit(x);
+    }
+    if let Some(x) = d {
+        b.dfa_size_limit(x);
+    }
+    b.build()
+}
+
+/// the `lf=` case kind: limits in force on the compiled regexes
+fn run_lf(src: &str, opt: Option<LexFlags>, force: &LexFlags, w: &[String], wn: &[String], inputs: &[String], s: Option<usize>, d: Option<usize>) -> String {
+    let mut o = String::new();
+    let (s2, o2) = (src.to_string(), opt.clone());
+    let res = catch(std::panic::AssertUnwindSafe(move || match o2 {
+        Some(f) => Def::new_with_options(&s2, f),
+        None => Def::from_str(&s2),
+    }));
+    let def = match res {
+        Err(_) => {
+            o.push_str("LFI PANIC");
+            None
+        }
+        Ok(Err(errs)) => {
+            o.push_str("LFI E");
+            for e in errs.iter() {
+                let dbg = format!("{:?}", e);
+                let n = dbg
+                    .find("CompiledTooBig(")
+                    .map(|i| dbg[i + 15..].chars().take_while(|c| c.is_ascii_digit()).collect::<String>())
+                    .filter(|x| !x.is_empty())
+                    .unwrap_or("-".to_string());
+                write!(o, " {}:{}:{}", debug_kind(e), e.spans().first().map(|sp| sp.start() as i64).unwrap_or(-1), n).unwrap();
+            }
+            None
+        }
+        Ok(Ok(d)) => {
+            o.push_str("LFI built");
+            Some(d)
+        }
+    };
+    o.push_str(" | LFR");
+    let mut refs = vec![];
+    for (k, x) in w.iter().enumerate() {
+        // u: is the compiled program within d bytes (does it build with size_limit(d) and nothing else)?  `-` when d is not given
+        let under = match d {
+            Some(d) => (build_limits(&uh(x), force, Some(d), None).is_ok() as u8).to_string(),
+            None => "-".to_string(),
+        };
+        match build_limits(&uh(x), force, s, d) {
+            Ok(r) => {
+                write!(o, " {}:built:{}", k, under).unwrap();
+                refs.push(Some(r));
+            }
+            Err(regex::Error::CompiledTooBig(n)) => {
+                write!(o, " {}:toobig:{}:{}", k, n, under).unwrap();
+                refs.push(None);
+            }
+            Err(_) => {
+                write!(o, " {}:err", k).unwrap();
+                refs.push(None);
+            }
+        }
+    }
+    if let (Some(def), true) = (def, refs.iter().all(|r| r.is_some()) && !inputs.is_empty()) {
+        o.push_str(" | LFX");
+        for t in inputs {
+            write!(o, " x{}=", hex(t)).unwrap();
+            let mut parts = vec![];
+            for l in def.lexer(t).iter() {
+                match l {
+                    Ok(l) => parts.push(format!("{}:{}:{}", l.tok_id(), l.span().start(), l.span().len())),
+                    Err(e) => parts.push(format!("E{}", lrpar::LexError::span(&e).start())),
+                }
+            }
+            o.push_str(&parts.join(","));
+            o.push('/');
+            // the reference lexer: longest match over the rules, the first rule on a tie; token ids count the named rules in source order
+            let ids: Vec<Option<usize>> = (0..refs.len())
+                .map(|k| if wn.get(k).map(|x| x == "1").unwrap_or(true) { Some((0..k).filter(|j| wn.get(*j).map(|x| x == "1").unwrap_or(true)).count()) } else { None })
+                .collect();
+            let mut parts = vec![];
+            let mut i = 0;
+            while i < t.len() {
+                let (mut longest, mut ridx) = (0, 0);
+                for (k, r) in refs.iter().enumerate() {
+                    if let Some(m) = r.as_ref().unwrap().find(&t[i..]) {
+                        if m.end() > longest {
+                            longest = m.end();
+                            ridx = k;
+                        }
+                    }
+                }
+                if longest == 0 {
+                    parts.push(format!("E{}", i));
+                    break;
+                }
+                if let Some(id) = ids[ridx] {
+                    parts.push(format!("{}:{}:{}", id, i, longest));
+                }
+                i += longest;
+            }
+            o.push_str(&parts.join(","));
+        }
+    }
+    o
+}
+
 /// The regex a rule with text `re` is documented to be under flags `f`
 /// (documented defaults: dot_matches_new_line, multi_line, octal = true): `re` must be a regular
 /// expression on its own; it is then anchored at the start of the remaining input.
@@ -188,6 +331,7 @@ fn run(line: &str) -> String {
     let (mut w, mut wn, mut bat, mut inputs) = (vec![], vec![], vec![], vec![]);
     let mut lim = false;
     let mut nl: Option<Option<u32>> = None;
+    let mut lf: Option<(Option<usize>, Option<usize>)> = None;
     for tok in line.split_whitespace() {
         let (k, v) = match tok.split_once('=') {
             Some(x) => x,
@@ -203,8 +347,19 @@ fn run(line: &str) -> String {
             "in" => inputs = list(v).iter().map(|x| uh(x)).collect(),
             "lim" => lim = v == "1",
             "nl" => nl = Some(if v == "d" { None } else { Some(v.parse().expect("nl=<u32>|d")) }),
+            "lf" => {
+                let (a, b) = match v.split_once(':') {
+                    Some(x) => x,
+                    None => return "BADCASE".to_string(),
+                };
+                let p = |x: &str| if x == "-" { None } else { Some(x.parse::<usize>().expect("lf=<usize|->:<usize|->")) };
+                lf = Some((p(a), p(b)));
+            }
             _ => return "BADCASE".to_string(),
         }
+    }
+    if let Some((s, d)) = lf {
+        return run_lf(&src, opt, &force, &w, &wn, &inputs, s, d);
     }
     let mut o = String::new();
     // --- what the (public) header parser says: needed as an input of the mirror
